@@ -66,11 +66,13 @@ def supervised(ctx, cmd):
 
 def run(ctx):
     vd, bulk = ctx.vdrive(), ctx.goblverif()
+    cli = ctx.gobl()
     q = ctx.quick()
     plan = ctx.path("plan.ndjson")
     ctx.model_check("MCOutcome", "MCOutcome.cfg", workers=4, env={"OUT": plan})
     supervised(ctx, [vd, "crash-run", "-repo", core.REPO, "-plan", plan, "-seed", str(ctx.seed), "-cap", "45" if q else "0",
-                     "-bytes", "1000" if q else "60000", "-bulk", bulk, "-out", ctx.path("trace.ndjson")])
+                     "-bytes", "1000" if q else "60000", "-bulk", bulk, "-cli", cli, "-cli-every", "40" if q else "12",
+                     "-out", ctx.path("trace.ndjson")])
     tot = validate(ctx, ctx.path("trace.ndjson"), 16)
     lines = open(ctx.path("trace.ndjson")).read().splitlines()
     samples = []
